@@ -25,7 +25,7 @@ def nasty_docs(rng):
     out = [b"\x00", b"a\x00b", b"\"a\x00b\"", b"[1 \x00 2]", b"\xff\xfe", b"\"\xc3\"", b"\\\xe2\x82", b":\xf0\x9f", b"#\xc3\xa9 1", b"\"\\u12",
            b"\\u00", b"\\", b"#", b"##", b"##I", b"##Na", b"##-In", b"\\newlin", b"\\spac", b"\\formfee", b"\\o37", b"\\o", b"1e", b"1e+", b"1.", b"-",
            b"+", b"0x", b"0x1", b"36r", b"36rZ", b"1/", b"1_", b"1_0", b"9223372036854775807", b"-9223372036854775808", b"9223372036854775808",
-           b"-9223372036854775809", b"99999999999999999999999999999999", b"1e400", b"1e-400", b"0." + b"0" * 40 + b"1", b"1" * 18 + b"." + b"9" * 30,
+           b"-9223372036854775809", b"99999999999999999999999999999999", b"99999999999999999999r1", b"2147483648r1", b"4294967296r0", b"0000000000000000000000036rZ", b"1e400", b"1e-400", b"0." + b"0" * 40 + b"1", b"1" * 18 + b"." + b"9" * 30,
            b"\"\"\"\n", b"\"\"\"\n a", b"\"\"\"\n a\n", b"\"\"\"\n  \\\"\"\"", b"#_", b"#_ ", b"^", b"^:a", b"#:", b"#:a", b"#:a{", b"{", b"#{", b"(", b"[",
            b"\"", b"\"\\", b"\"abc", b";", b"; x", b"#t", b"#t ", b"#inst \"x", b"a/", b"/a", b"a/b/c", b":", b"::", b":a/", b"[" * 120, b"#_" * 60 + b"1"]
     # tokens longer than any internal fixed-size buffer (512 / 4096 bytes), of every class
